@@ -112,3 +112,35 @@ def components(ids, vis):
     for i in ids:
         comps.setdefault(find(i), []).append(i)
     return list(comps.values())
+
+
+def axis_room(seed):
+    """A tidy, axis-aligned installation: base stations at the middle of walls / in corners of a rectangular room, aimed at
+    its centre without roll; the Crazyflie level, on a grid, with yaws that are exact multiples of 90 degrees; the first
+    pose faces +X.  (Exact right angles are where sign conventions and branch cuts of rotations live.)"""
+    rnd = random.Random(seed)
+    hx, hy = rnd.choice((2.0, 2.5, 3.0)), rnd.choice((2.0, 2.5, 3.0))
+    h = rnd.choice((2.0, 2.5, 3.0))
+    spots = [(hx, 0.0), (-hx, 0.0), (0.0, hy), (0.0, -hy), (hx, hy), (-hx, hy), (hx, -hy), (-hx, -hy)]
+    n_bs = rnd.randint(2, 4)
+    chosen = rnd.sample(spots[:4], min(n_bs, 4)) if rnd.random() < 0.7 else rnd.sample(spots, n_bs)
+    ids = rnd.sample(range(16), len(chosen))
+    bs = {}
+    for i, (x, y) in zip(ids, chosen):
+        pos = np.array([x, y, h])
+        bs[i] = (look_at(pos, (0.0, 0.0, 0.0), 0.0), pos)
+    cf = []
+    n_cf = rnd.choice((4, 6, 8, 12))
+    grid = [(gx, gy) for gx in (-0.5, 0.0, 0.5) for gy in (-0.5, 0.0, 0.5)]
+    for k in range(n_cf):
+        gx, gy = grid[k % len(grid)] if k else (0.0, 0.0)
+        yaw = 0.0 if k == 0 else rnd.choice((0.0, math.pi / 2, -math.pi / 2, math.pi))
+        z = 0.0 if k % 2 == 0 else 0.25
+        R = rot_axis((0, 0, 1), yaw) if yaw else np.eye(3)
+        if k:
+            # all poses exactly level would make the mirror ambiguity of a planar target unresolvable (outside the
+            # envelope "roughly level ... small tilt"): every pose but the first gets a small tilt
+            ta = rnd.uniform(0, 6.28)
+            R = R @ rot_axis((math.cos(ta), math.sin(ta), 0), rnd.uniform(0.03, 0.15))
+        cf.append((R, np.array([gx, gy, z])))
+    return {'bs': bs, 'cf': cf, 'ids': ids}
